@@ -21,7 +21,8 @@ HINTS = orderdep.Hints(
     set_returning=["_find_cycles", "_first", "_closure_of_item", "_gather_expected_back_ends"],
     containers_of_sets=["firsts", "graph", "dependencies", "results", "item_sets", "item_list",
                         "_single_level_closure_of_item_cache", "_closure_of_item_cache", "gotos", "firsts_to_add", "cycles"],
-    table_targets=["action", "goto_table", "trimmed_goto", "items", "_item_cache", "firsts", "firsts_to_add"])
+    table_targets=["action", "goto_table", "trimmed_goto", "items", "_item_cache", "firsts", "firsts_to_add"],
+    set_names=["cycles"])
 
 # files that take part in compiling an .emb file (dev tools and tests are out of scope)
 EXCLUDE = ("_test.py", "enumerate_parse_errors.py", "generate_cached_parser.py", "generate_grammar_md.py", "format.py",
